@@ -768,6 +768,20 @@ def biv_specs(ctx, n_random, deep=False):
     m = C['Independence']()
     m.fit(pair(0.0, 30))
     out.append((('Independence', 'fit'), m, 'fit'))
+    # fit REFUSED part-way: check_marginal passed, `tau` was assigned, then fit raised (theta stays what it was)
+    xs = np.linspace(0.02, 0.98, 25)
+    refusing = {'comonotone': np.column_stack([xs, xs]), 'antimonotone': np.column_stack([xs, xs[::-1]]),
+                'constant-column': np.column_stack([xs, np.full(len(xs), 0.5)]),
+                'both-constant': np.column_stack([np.full(len(xs), 0.3), np.full(len(xs), 0.5)]),
+                'out-of-bounds': np.column_stack([xs, xs * 3.0])}
+    for name in ('Clayton', 'Frank', 'Gumbel'):
+        for tag, Xr in refusing.items():
+            m = C[name]()
+            if outcome(lambda: m.fit(Xr))[0] == 'err':
+                out.append(((name, 'refused', tag), m, 'refused'))
+            m = C[name]()                                   # an earlier successful fit, then a refused one: stale theta, new tau
+            if outcome(lambda: m.fit(pair(0.6, 40)))[0] == 'ok' and outcome(lambda: m.fit(Xr))[0] == 'err':
+                out.append(((name, 'fit>refused', tag), m, 'refused'))
     # hand-set edge parameters
     for name, th, tau in (('Clayton', 1e-8, 5e-9), ('Clayton', 50.0, 0.96), ('Frank', -30.0, -0.87), ('Frank', 1e-6, 1e-7),
                           ('Gumbel', 1.0, 0.0), ('Gumbel', 25.0, 0.96), ('Clayton', float('inf'), 1.0),
@@ -1546,9 +1560,13 @@ def search_bivariate(ctx, deep, found):
             for vname, robj in biv_variants(m, d, tmp, 5 if deep else 3).items():
                 checked += 1
                 inp = {'class': type(m).__name__, 'theta': m.theta, 'tau': m.tau, 'variant': vname}
+                sfx = ''
+                if how == 'refused':
+                    inp['state'] = {'history': key[1], 'refusing_data': key[2]}
+                    sfx = ':after-refused-fit'
                 e = f'{type(m).__name__}.{"save/load" if vname == "save_load" else "from_dict"}'
                 if robj[0] == 'err':
-                    _report(ctx, found, e, inp, robj[1], 'the rebuilt copula exists', f'{e}:raises-{robj[1]}')
+                    _report(ctx, found, e, inp, robj[1], 'the rebuilt copula exists', f'{e}:raises-{robj[1]}' + sfx)
                     continue
                 o = robj[1]
                 if type(o) is not type(m):
@@ -1556,7 +1574,9 @@ def search_bivariate(ctx, deep, found):
                     continue
                 diff = compare_behaviour(b0, biv_behaviour(o, X, y, v, 9))
                 if diff:
-                    _report(ctx, found, e, inp, {'differs': diff}, f'{diff} identical', f'{e}:{diff}-differs')
+                    b1 = biv_behaviour(o, X, y, v, 9)
+                    _report(ctx, found, e, inp, {'differs': diff, 'original': _brief(b0[diff]), 'rebuilt': _brief(b1.get(diff))},
+                            f'{diff} identical', f'{e}:{diff}-differs' + sfx)
     finally:
         shutil.rmtree(tmp, ignore_errors=True)
     return checked
